@@ -1,7 +1,216 @@
-(* C10 / C11: completeness of `llfree_get` on the sequential upper-allocator model. *)
+(* C10: completeness of `llfree_get` on the sequential upper-allocator model, right after a drain (no
+   slot holds a reservation), under `pol_never_invalid`:
+   (a) `get_base_complete`: a base-order (order 0) get returns Err EMemory only if every tree counter is
+       zero (`get_base_complete_free`: hence, by U3, every free frame of the lower allocator is hidden by
+       an offline operation);
+   (b) `get_at_complete`: a targeted get returns Ok exactly when the block is free in the ownership state
+       and the counter of its tree covers it.
+   Ingredients: failing accesses leave counters / reserved flags / locals unchanged (`*_err_stable`);
+   a base-order lower attempt paid by a credit cannot fail (`attempt_succeeds`, through `lf_tree_free`,
+   `lf_get`'s completeness clause and `free_frame_exists`); the full alternating walk visits every tree
+   and a rated candidate is tried (`search_best_complete` of UpperGetLoops.v). *)
 From LLF Require Import Base BitLemmas Row Bitfield Lower Spec AbsLemmas Sorted Upper UpperInvDef LowerFacts
-  UpperGetLoops UpperGetProofs.
-From Coq Require Import ZifyN ZifyBool.
+  UpperPrims UpperGetLoops UpperGetProofs.
+From Coq Require Import ZifyN ZifyBool PeanoNat.
+
+Local Strategy 900 [locals_steal_any locals_demote_any search_best].
+Local Strategy 1000 [steal_any_loop demote_any_loop steal_slots demote_slots
+  get_local sb_loop sb_try search_loop lower_get_opt lower_get lower_get_at lget_low
+  trees_put trees_sync trees_steal trees_reserve_or_steal trees_unreserve
+  locals_get locals_put locals_swap locals_set_start].
+Local Strategy 500 [steal_global reserve_or_steal steal_local demote_local].
+Local Strategy 400 [search_and_reserve].
+Local Strategy 300 [get_at].
+
+(* ---------------------------------------------------------------------------------------------- *)
+(* failing accesses leave the locals, and the counter and reserved flag of every tree, as they were
+   (the class of the accessed tree may change) *)
+Section Stable.
+  Variable g : geom.
+  Variable policy : N -> N -> N -> pol.
+
+  Definition tkey (t : tree) : N * bool := (t_free t, t_res t).
+  Definition tstable (u u1 : upper) : Prop :=
+    locals u1 = locals u /\ forall i, option_map tkey (tree_at u1 i) = option_map tkey (tree_at u i).
+
+  Lemma tstable_refl u : tstable u u.
+  Proof. split; auto. Qed.
+  Lemma tstable_trans u1 u2 u3 : tstable u1 u2 -> tstable u2 u3 -> tstable u1 u3.
+  Proof. intros (A & B) (C & D). split; [congruence|]. intros i. rewrite D. apply B. Qed.
+
+  Lemma set_tree_tstable u i t t' :
+    tree_at u i = Some t -> tkey t' = tkey t -> tstable u (set_tree u i t').
+  Proof.
+    intros Ht Hk. split; [reflexivity|]. intros j. destruct (N.eq_dec j i) as [->|Hne].
+    - rewrite (tree_at_set_tree_same _ _ _ _ Ht), Ht. cbn [option_map]. congruence.
+    - rewrite tree_at_set_tree_other by exact Hne. reflexivity.
+  Qed.
+
+  Lemma with_low_tstable u l : tstable u (with_low u l).
+  Proof. split; reflexivity. Qed.
+
+  Lemma tree_at_with_low u l i : tree_at (with_low u l) i = tree_at u i.
+  Proof. reflexivity. Qed.
+
+  Lemma tree_put_key d t n t' : tree_put g policy d t n = Ok t' -> tkey t' = (t_free t + n, t_res t).
+  Proof. unfold tree_put. destruct (TF g <? t_free t + n); [discriminate|]. intros H; inv H. reflexivity. Qed.
+
+  Lemma tree_put_no_err d t n e : tree_put g policy d t n <> Err e.
+  Proof. unfold tree_put. destruct (TF g <? t_free t + n); discriminate. Qed.
+
+  (* put after a steal of the same amount *)
+  Lemma trees_put_back u0 u i t t' n r u' :
+    tree_at u0 i = Some t -> tstable u0 (set_tree u0 i t) ->
+    tree_at u i = Some t' -> tstable (set_tree u0 i t') u ->
+    t_free t' + n = t_free t -> t_res t' = t_res t ->
+    trees_put g policy u i n = (r, u') -> (exists s, r = Panic s) \/ (r = Ok tt /\ tstable u0 u').
+  Proof.
+    intros Ht _ Ht' Hst Hf Hr. unfold trees_put. rewrite Ht'.
+    destruct (tree_put g policy (dflt u) t' n) as [t''|e|s] eqn:Ep.
+    - intros H; inv H. right. split; auto. apply tree_put_key in Ep.
+      destruct Hst as (A & B). split; [cbn [locals set_tree with_trees]; exact A|].
+      intros j. destruct (N.eq_dec j i) as [->|Hne].
+      + rewrite (tree_at_set_tree_same _ _ _ _ Ht'), Ht. cbn [option_map]. rewrite Ep. unfold tkey.
+        f_equal. f_equal; [lia|exact Hr].
+      + rewrite tree_at_set_tree_other by exact Hne. rewrite B. rewrite tree_at_set_tree_other by exact Hne.
+        reflexivity.
+    - exfalso. eapply tree_put_no_err; eauto.
+    - intros H; inv H. eauto.
+  Qed.
+
+  Lemma lget_low_tstable u row k fr r u' : lget_low g u row k fr = (r, u') -> tstable u u'.
+  Proof. unfold lget_low. destruct (lower_get_opt g (low u) row k fr). intros H; inv H. apply with_low_tstable. Qed.
+
+  Lemma lget_low_tree_at u row k fr r u' i : lget_low g u row k fr = (r, u') -> tree_at u' i = tree_at u i.
+  Proof. unfold lget_low. destruct (lower_get_opt g (low u) row k fr). intros H; inv H. reflexivity. Qed.
+
+  Lemma steal_global_err_stable u i c k fr e u' :
+    steal_global g policy u i c k fr = (Err e, u') -> tstable u u'.
+  Proof.
+    unfold steal_global, lift, trees_steal.
+    destruct (tree_at u i) as [t|] eqn:Ht; [|discriminate].
+    destruct (tree_steal policy t c (pow2 k)) as [t'|] eqn:Es.
+    2:{ intros H; inv H. apply tstable_refl. }
+    assert (Hk : t_free t' + pow2 k = t_free t /\ t_res t' = t_res t).
+    { unfold tree_steal in Es. destruct ((pow2 k <=? t_free t) && negb (t_res t)) eqn:Ec; [|discriminate].
+      apply andb_true_iff in Ec. destruct Ec as (Ec & _). apply N.leb_le in Ec.
+      destruct (policy c (t_class t) (pow2 k)); inv Es; cbn [t_free t_res]; split; auto; lia. }
+    destruct Hk as (Hf & Hr).
+    destruct (lget_low g (set_tree u i t') (tree_row g i) k fr) as [[f|e2|s] u2] eqn:Eg; try discriminate.
+    destruct (trees_put g policy u2 i (pow2 k)) as [rp u3] eqn:Ep.
+    assert (Ht2 : tree_at u2 i = Some t').
+    { rewrite (lget_low_tree_at _ _ _ _ _ _ i Eg). eapply tree_at_set_tree_same; eauto. }
+    assert (A1 : tstable u (set_tree u i t)) by (apply set_tree_tstable with (t := t); auto).
+    assert (A2 : tstable (set_tree u i t') u2) by (eapply lget_low_tstable; eauto).
+    destruct (trees_put_back u u2 i t t' (pow2 k) rp u3 Ht A1 Ht2 A2 Hf Hr Ep) as [(s & ->)|(-> & Hs)].
+    - discriminate.
+    - intros H; inv H. exact Hs.
+  Qed.
+
+  Lemma locals_swap_no_err u c j t n e u' : locals_swap g u c j t n <> (Err e, u').
+  Proof.
+    unfold locals_swap. destruct (class_slots u c); [|discriminate].
+    destruct (nth_error l (nn j)); discriminate.
+  Qed.
+
+  Lemma trees_unreserve_no_err u i n c e u' : trees_unreserve g policy u i n c <> (Err e, u').
+  Proof.
+    unfold trees_unreserve. destruct (tree_at u i) as [t|]; [|discriminate].
+    unfold tree_unreserve_add. destruct (t_res t); [|discriminate].
+    destruct (policy c (t_class t) n); try discriminate.
+    - destruct (tree_put g policy (dflt u) _ n) eqn:E; try discriminate.
+      exfalso. eapply tree_put_no_err; eauto.
+    - destruct (tree_put g policy (dflt u) _ n) eqn:E; try discriminate.
+      exfalso. eapply tree_put_no_err; eauto.
+  Qed.
+
+  Lemma reserve_or_steal_err_stable u i k c l e u' :
+    reserve_or_steal g policy u i k c l = (Err e, u') -> tstable u u'.
+  Proof.
+    unfold reserve_or_steal. unfold lift at 1. unfold trees_reserve_or_steal.
+    destruct (tree_at u i) as [t|] eqn:Ht; [|discriminate].
+    destruct (tree_reserve_or_steal policy t (pow2 k) c) as [t'|] eqn:Es.
+    2:{ intros H; inv H. apply tstable_refl. }
+    unfold tree_reserve_or_steal in Es.
+    destruct ((pow2 k <=? t_free t) && negb (t_res t)) eqn:Ec; [|discriminate].
+    apply andb_true_iff in Ec. destruct Ec as (Ec & Er). apply N.leb_le in Ec. apply negb_true_iff in Er.
+    assert (Hres : forall t', t' = {| t_free := 0; t_res := true; t_class := c |} ->
+      match lget_low g (set_tree u i t') (tree_row g i) k None with
+      | (Ok f, u2) =>
+          if t_res t'
+          then match class_locals u2 (t_class t') with
+               | Some len =>
+                   if 0 <? len
+                   then lift (locals_swap g u2 (t_class t') (l mod len) (f / TF g) (t_free t - pow2 k))
+                          (fun old u3 => match old with
+                                         | Some rv => lift (trees_unreserve g policy u3 (row_tree g (rv_row rv)) (rv_free rv) (t_class t'))
+                                                        (fun _ u4 => (Ok (f, t_class t'), u4))
+                                         | None => (Ok (f, t_class t'), u3) end)
+                   else (Ok (f, t_class t'), u2)
+               | None => (Ok (f, t_class t'), u2)
+               end
+          else (Ok (f, t_class t'), u2)
+      | (Err e0, u2) =>
+          if t_res t'
+          then lift (trees_unreserve g policy u2 i (t_free t) (t_class t')) (fun _ u3 => (Err e0, u3))
+          else lift (trees_put g policy u2 i (pow2 k)) (fun _ u3 => (Err e0, u3))
+      | (Panic s, u2) => (Panic s, u2)
+      end = (Err e, u') -> tstable u u').
+    { intros t0 ->. cbn [t_res t_class].
+      destruct (lget_low g (set_tree u i _) (tree_row g i) k None) as [[f|e2|s] u2] eqn:Eg; try discriminate.
+      - destruct (class_locals u2 c) as [len|]; [|discriminate].
+        destruct (0 <? len); [|discriminate]. unfold lift at 1.
+        destruct (locals_swap g u2 c (l mod len) (f / TF g) (t_free t - pow2 k)) as [[old|e3|s3] u3] eqn:Esw.
+        + destruct old as [rv|]; [|discriminate]. unfold lift.
+          destruct (trees_unreserve g policy u3 (row_tree g (rv_row rv)) (rv_free rv) c) as [[[]|e4|s4] u4] eqn:Eu;
+            try discriminate.
+          exfalso. eapply trees_unreserve_no_err; eauto.
+        + exfalso. eapply locals_swap_no_err; eauto.
+        + discriminate.
+      - unfold lift.
+        destruct (trees_unreserve g policy u2 i (t_free t) c) as [ru u3] eqn:Eu.
+        assert (Ht2 : tree_at u2 i = Some {| t_free := 0; t_res := true; t_class := c |}).
+        { rewrite (lget_low_tree_at _ _ _ _ _ _ i Eg). eapply tree_at_set_tree_same; eauto. }
+        pose proof (lget_low_tstable _ _ _ _ _ _ Eg) as (Hloc2 & Hst2).
+        unfold trees_unreserve in Eu. rewrite Ht2 in Eu. unfold tree_unreserve_add in Eu. cbn [t_res t_class t_free] in Eu.
+        assert (Hput : forall cls rr uu,
+          match tree_put g policy (dflt u2) {| t_free := 0; t_res := false; t_class := cls |} (t_free t) with
+          | Ok t'0 => (Ok tt, set_tree u2 i t'0) | Err e0 => (Err e0, u2) | Panic s => (Panic s, u2) end = (rr, uu) ->
+          (exists s, rr = Panic s) \/ (rr = Ok tt /\ tstable u uu)).
+        { intros cls rr uu Hp.
+          destruct (tree_put g policy (dflt u2) {| t_free := 0; t_res := false; t_class := cls |} (t_free t))
+            as [t2|e5|s5] eqn:Ep.
+          - inv Hp. right. split; auto. apply tree_put_key in Ep. cbn [t_free t_res] in Ep.
+            split; [cbn [locals set_tree with_trees]; exact Hloc2|].
+            intros j. destruct (N.eq_dec j i) as [->|Hne].
+            + rewrite (tree_at_set_tree_same _ _ _ _ Ht2), Ht. cbn [option_map]. rewrite Ep. unfold tkey.
+              rewrite Er. f_equal.
+            + rewrite tree_at_set_tree_other by exact Hne. rewrite Hst2.
+              rewrite tree_at_set_tree_other by exact Hne. reflexivity.
+          - exfalso. eapply tree_put_no_err; eauto.
+          - inv Hp. eauto. }
+        assert (Hfin : (exists s, ru = Panic s) \/ (ru = Ok tt /\ tstable u u3)).
+        { destruct (policy c c (t_free t)); try (inv Eu; eauto; fail); eapply Hput; eauto. }
+        destruct Hfin as [(s & ->)|(-> & Hs)]; intros Hr; inv Hr. exact Hs. }
+    destruct (policy c (t_class t) (pow2 k)) eqn:Ep; inv Es; cbn [t_res t_class t_free].
+    - apply (Hres _ eq_refl).
+    - apply (Hres _ eq_refl).
+    - rewrite Er.
+      destruct (lget_low g (set_tree u i _) (tree_row g i) k None) as [[f|e2|s] u2] eqn:Eg; try discriminate.
+      unfold lift.
+      destruct (trees_put g policy u2 i (pow2 k)) as [rp u3] eqn:Epp.
+      set (t' := {| t_free := t_free t - pow2 k; t_res := false; t_class := t_class t |}) in *.
+      assert (Ht2 : tree_at u2 i = Some t').
+      { rewrite (lget_low_tree_at _ _ _ _ _ _ i Eg). eapply tree_at_set_tree_same; eauto. }
+      assert (A1 : tstable u (set_tree u i t)) by (apply set_tree_tstable with (t := t); auto).
+      assert (A2 : tstable (set_tree u i t') u2) by (eapply lget_low_tstable; eauto).
+      assert (A3 : t_free t' + pow2 k = t_free t) by (subst t'; cbn [t_free]; lia).
+      assert (A4 : t_res t' = t_res t) by (subst t'; cbn [t_res]; auto).
+      destruct (trees_put_back u u2 i t t' (pow2 k) rp u3 Ht A1 Ht2 A2 A3 A4 Epp) as [(s & ->)|(-> & Hs)].
+      + discriminate.
+      + intros H; inv H. exact Hs.
+  Qed.
+End Stable.
 
 (* ---------------------------------------------------------------------------------------------- *)
 (* a tree with a positive number of free frames (ownership state) has an allocatable frame *)
@@ -18,22 +227,529 @@ Proof.
       * left. exists (f + n). split; [lia|exact E].
 Qed.
 
-Section FreeFrame.
-  Variable g : geom.
-  Notation TF := (TF g).
+Lemma free_frame_exists g s t :
+  1 <= spec_tree_free g s t -> exists f, f / TF g = t /\ spec_get_enabled s f 0 = true.
+Proof.
+  unfold spec_tree_free. set (lo := t * TF g). set (hi := N.min (o_frames s) (lo + TF g)).
+  intros H.
+  destruct (clear_bit_or_all_set (o_alloc s) lo (hi - lo)) as [(i & Hi & Hb)|Hall].
+  - exists i. pose proof (AbsLemmas.TF_pos g) as Htf.
+    assert (Hhi : lo < hi) by lia.
+    split.
+    + symmetry. apply N.div_unique with (r := i - lo); subst lo hi; lia.
+    + apply spec_get_enabled_spec. rewrite pow2_0. split; [apply N.mod_1_r|].
+      split; [subst hi; lia|]. intros j Hj. assert (j = i) by lia. subst. exact Hb.
+  - apply land_blk_full in Hall. rewrite Hall, popcount_blk in H. lia.
+Qed.
 
-  Lemma free_frame_exists s t :
-    1 <= spec_tree_free g s t -> exists f, f / TF = t /\ spec_get_enabled s f 0 = true.
+Section Complete10.
+  Variable g : geom.
+  Variable policy : N -> N -> N -> pol.
+  Hypothesis WF : wf_geom g.
+  Hypothesis LF : lower_facts g.
+  Hypothesis PR : pol_refl_match policy.
+  Hypothesis PT : pol_demote_trans policy.
+  Hypothesis PN : pol_never_invalid policy.
+  Notation TF := (TF g).
+  Notation UIC := (UpperInvC g policy).
+  Notation Inv := (UpperInv g policy).
+
+  (* a base-order lower attempt that was paid for with a credit cannot fail: the credit is a free frame *)
+  Lemma attempt_succeeds ih x1 T row r u2 :
+    UIC (crd T 1) ih x1 -> T < ntrees (us x1) -> row_tree g row = T ->
+    lget_low g (us x1) row 0 None = (r, u2) -> exists f, r = Ok f.
   Proof.
-    unfold spec_tree_free. set (lo := t * TF). set (hi := N.min (o_frames s) (lo + TF)).
-    intros H.
-    destruct (clear_bit_or_all_set (o_alloc s) lo (hi - lo)) as [(i & Hi & Hb)|Hall].
-    - exists i. pose proof (TF_pos g) as Htf.
-      assert (Hhi : lo < hi) by lia.
-      split.
-      + symmetry. apply N.div_unique with (r := i - lo); subst lo hi; lia.
-      + apply spec_get_enabled_spec. rewrite pow2_0. split; [apply N.mod_1_r|].
-        split; [subst hi; lia|]. intros j Hj. assert (j = i) by lia. subst. exact Hb.
-    - apply land_blk_full in Hall. rewrite Hall, popcount_blk in H. lia.
+    intros H HT Hrow Hg.
+    destruct (tree_at_some _ _ HT) as (tr & Htr).
+    pose proof (UIC_tree g policy WF LF _ _ _ _ _ H Htr) as Hok.
+    apply (tree_okC_nn g policy WF LF) in Hok. destruct Hok as (_ & B & _).
+    unfold crd, delta in B. rewrite N.eqb_refl in B.
+    pose proof (UIC_lower g policy WF LF _ _ _ H) as HL.
+    pose proof (UIC_ntrees g policy WF LF _ _ _ H) as Hnt.
+    assert (HTn : T < ntab g (frames (low (us x1)))) by (rewrite <- Hnt; exact HT).
+    destruct (lf_tree_free g LF _ _ HL HTn) as (Etf & _).
+    assert (Hpre : row_tree g row < ntab g (frames (low (us x1)))) by (rewrite Hrow; exact HTn).
+    pose proof (lget_low_spec g LF _ _ 0%nat None _ _ HL (Nat.le_0_l _) Hpre Hg) as (_ & Hs).
+    destruct r as [f|e|s]; [eauto| |destruct Hs].
+    exfalso. destruct Hs as (_ & _ & Hno).
+    destruct (free_frame_exists g (abs g (low (us x1))) T) as (f & Hf & He); [rewrite <- Etf; lia|].
+    rewrite Hno in He; [discriminate|]. rewrite Hrow. exact Hf.
   Qed.
-End FreeFrame.
+
+  Lemma tree_steal_some t class free :
+    free <= t_free t -> t_res t = false -> exists t', tree_steal policy t class free = Some t'.
+  Proof.
+    intros Hf Hr. unfold tree_steal. apply N.leb_le in Hf. rewrite Hf, Hr. cbn [negb andb].
+    pose proof (PN class (t_class t) free) as Hp. destruct (policy class (t_class t) free); eauto. discriminate.
+  Qed.
+
+  Lemma tree_reserve_or_steal_some t class free :
+    free <= t_free t -> t_res t = false -> exists t', tree_reserve_or_steal policy t free class = Some t'.
+  Proof.
+    intros Hf Hr. unfold tree_reserve_or_steal. apply N.leb_le in Hf. rewrite Hf, Hr. cbn [negb andb].
+    pose proof (PN class (t_class t) free) as Hp. destruct (policy class (t_class t) free); eauto. discriminate.
+  Qed.
+
+  (* a direct steal of a base frame from an unreserved tree with a non-zero counter succeeds *)
+  Lemma steal_global_succeeds x i class t r u' :
+    Inv x -> class_slots (us x) class <> None ->
+    tree_at (us x) i = Some t -> t_res t = false -> 1 <= t_free t ->
+    steal_global g policy (us x) i class 0 None = (r, u') -> exists f c, r = Ok (f, c).
+  Proof.
+    intros HI Hc Ht Hr Hf. pose proof (tree_at_lt _ _ _ Ht) as Hi.
+    unfold steal_global. unfold lift at 1.
+    destruct (trees_steal policy (us x) i class (pow2 0)) as [ro u1] eqn:Es.
+    pose proof HI as HC. apply Inv_UIC in HC.
+    destruct (trees_steal_C g policy WF LF _ _ _ _ _ _ _ _ HC Hi Hc Es) as [(-> & ->)|Hs].
+    { exfalso. unfold trees_steal in Es. rewrite Ht in Es.
+      destruct (tree_steal_some t class (pow2 0)) as (t' & Et'); auto. rewrite Et' in Es. discriminate. }
+    destruct Hs as (t0 & t' & _ & _ & _ & _ & _ & _ & _ & -> & Hu1 & Hcr).
+    specialize (Hcr (crd i (pow2 0)) (fun j => eq_refl)).
+    destruct (lget_low g u1 (tree_row g i) 0 None) as [r2 u2] eqn:Eg.
+    assert (Hi1 : i < ntrees (us (mk x u1))) by (cbn [us mk]; subst u1; rewrite ntrees_set_tree; exact Hi).
+    destruct (attempt_succeeds [] (mk x u1) i (tree_row g i) r2 u2 Hcr Hi1 (row_tree_tree_row g WF i) Eg) as (f & ->).
+    intros H; inv H. eauto.
+  Qed.
+
+  (* ... and so does reserve_or_steal *)
+  Lemma reserve_or_steal_succeeds x i class local len t r u' :
+    Inv x -> class_locals (us x) class = Some len -> 0 < len ->
+    tree_at (us x) i = Some t -> t_res t = false -> 1 <= t_free t ->
+    reserve_or_steal g policy (us x) i 0 class local = (r, u') -> exists f c, r = Ok (f, c).
+  Proof.
+    intros HI Hcl Hlen Ht Hr Hf Hros. pose proof (tree_at_lt _ _ _ Ht) as Hi.
+    pose proof (reserve_or_steal_G g policy WF LF PR x i 0%nat class local len r u' HI Hi Hcl Hlen (Nat.le_0_l _) Hros)
+      as Hpost.
+    destruct r as [[f c]|e|s]; [eauto| |destruct Hpost]. exfalso.
+    assert (Hc : class_slots (us x) class <> None).
+    { intros E. unfold class_locals in Hcl. rewrite E in Hcl. discriminate. }
+    revert Hros. unfold reserve_or_steal. unfold lift at 1.
+    destruct (trees_reserve_or_steal policy (us x) i class (pow2 0)) as [ro u1] eqn:Es.
+    pose proof HI as HC. apply Inv_UIC in HC.
+    destruct (trees_reserve_or_steal_C g policy WF LF _ _ _ _ _ _ _ _ PR HC Hi Hc Es) as [(-> & ->)|Hs].
+    { exfalso. unfold trees_reserve_or_steal in Es. rewrite Ht in Es.
+      destruct (tree_reserve_or_steal_some t class (pow2 0)) as (t' & Et'); auto. rewrite Et' in Es. discriminate. }
+    destruct Hs as (t0 & Ht0 & Hres & Hle & [(Hkeep & -> & Hu1 & Hih)|(Hst & -> & Hu1 & Hcr)]).
+    - assert (Hih2 : UIC (crd i (pow2 0)) [(i, class, t_free t0 - pow2 0)] (mk x u1)).
+      { eapply UIC_ih_credit; [exact Hih|]. intros j. unfold crd, cr0, delta. destruct (j =? i); lia. }
+      assert (Hi1 : i < ntrees (us (mk x u1))) by (cbn [us mk]; subst u1; rewrite ntrees_set_tree; exact Hi).
+      destruct (lget_low g u1 (tree_row g i) 0 None) as [r2 u2] eqn:Eg.
+      destruct (attempt_succeeds _ (mk x u1) i (tree_row g i) r2 u2 Hih2 Hi1 (row_tree_tree_row g WF i) Eg) as (f & ->).
+      cbv beta iota.
+      destruct (class_locals u2 class) as [len2|]; [|discriminate].
+      destruct (0 <? len2); [|discriminate]. unfold lift at 1.
+      destruct (locals_swap g u2 class (local mod len2) (f / TF) (t_free t0 - pow2 0)) as [[old|e3|s3] u3] eqn:Esw.
+      + destruct old as [rv|]; [|discriminate]. unfold lift.
+        destruct (trees_unreserve g policy u3 (row_tree g (rv_row rv)) (rv_free rv) class) as [[[]|e4|s4] u4] eqn:Eu;
+          try discriminate.
+        exfalso. eapply trees_unreserve_no_err; eauto.
+      + exfalso. eapply locals_swap_no_err; eauto.
+      + discriminate.
+    - specialize (Hcr (crd i (pow2 0)) (fun j => eq_refl)).
+      assert (Hi1 : i < ntrees (us (mk x u1))) by (cbn [us mk]; subst u1; rewrite ntrees_set_tree; exact Hi).
+      destruct (lget_low g u1 (tree_row g i) 0 None) as [r2 u2] eqn:Eg.
+      destruct (attempt_succeeds [] (mk x u1) i (tree_row g i) r2 u2 Hcr Hi1 (row_tree_tree_row g WF i) Eg) as (f & ->).
+      cbv beta iota. discriminate.
+  Qed.
+
+  (* ----- the searches, from states reached by failing attempts ----- *)
+  Definition Ist (x : ustate) (u1 : upper) : Prop :=
+    GP g policy x 0 None (Err EMemory) u1 /\ tstable (us x) u1.
+  Definition Good (x : ustate) (i : N) : Prop :=
+    exists t, tree_at (us x) i = Some t /\ t_res t = false /\ 1 <= t_free t.
+
+  Lemma Ist_refl x : Inv x -> Ist x (us x).
+  Proof. intros H. split; [apply GP_refl; exact H|apply tstable_refl]. Qed.
+
+  Lemma Ist_ntrees x u1 : Ist x u1 -> ntrees u1 = ntrees (us x).
+  Proof. intros (H & _). destruct (GP_err_inv g policy _ _ _ _ H) as (_ & _ & Fr). apply frame_ntrees. exact Fr. Qed.
+
+  Lemma Ist_tree x u1 i t1 : Ist x u1 -> tree_at u1 i = Some t1 ->
+    exists t, tree_at (us x) i = Some t /\ t_res t = t_res t1 /\ t_free t = t_free t1.
+  Proof.
+    intros (_ & _ & Hst) H1. specialize (Hst i). rewrite H1 in Hst. cbn [option_map] in Hst.
+    destruct (tree_at (us x) i) as [t|]; [|discriminate]. inv Hst. unfold tkey in H0. inv H0. eauto.
+  Qed.
+  Lemma Ist_tree' x u1 i t : Ist x u1 -> tree_at (us x) i = Some t ->
+    exists t1, tree_at u1 i = Some t1 /\ t_res t1 = t_res t /\ t_free t1 = t_free t.
+  Proof.
+    intros (_ & _ & Hst) H1. specialize (Hst i). rewrite H1 in Hst. cbn [option_map] in Hst.
+    destruct (tree_at u1 i) as [t1|]; [|discriminate]. inv Hst. unfold tkey in H0. inv H0. eauto.
+  Qed.
+
+  Section OneSearch.
+    Variable x : ustate.
+    Variable acc : upper -> N -> res (N * N) * upper.
+    Variable rate : N -> N -> pol.
+    Hypothesis A1 : forall u1 i r u2, GP g policy x 0 None (Err EMemory) u1 -> i < ntrees (us x) ->
+                                      acc u1 i = (r, u2) -> GP g policy (mk x u1) 0 None r u2.
+    Hypothesis A2 : forall u1 i e u2, acc u1 i = (Err e, u2) -> tstable u1 u2.
+    Hypothesis A3 : forall u1 i t r u2, Ist x u1 -> tree_at u1 i = Some t -> t_res t = false -> 1 <= t_free t ->
+                                        acc u1 i = (r, u2) -> exists f c, r = Ok (f, c).
+    Hypothesis R : forall c f, rate c f <> PInvalid <-> 1 <= f.
+
+    Lemma Ist_step u1 i u2 : Ist x u1 -> i < ntrees (us x) -> acc u1 i = (Err EMemory, u2) -> Ist x u2.
+    Proof.
+      intros (H1 & H2) Hi Ha. split.
+      - eapply GP_chain; [exact H1|]. eapply A1; eauto.
+      - eapply tstable_trans; [exact H2|]. eapply A2; eauto.
+    Qed.
+
+    Lemma search_Ist cap u1 start offset len u2 :
+      Ist x u1 -> (ntrees (us x) = 0 -> len <= offset) ->
+      search_best g acc rate cap u1 start offset len = (Err EMemory, u2) -> Ist x u2.
+    Proof.
+      intros HI Hz Hs.
+      pose proof (search_best_inv g acc (ntrees (us x)) (Ist x) (fun _ _ => True)) as L.
+      specialize (L (Ist_ntrees x)).
+      assert (Hacc : forall u i r u', Ist x u -> i < ntrees (us x) -> acc u i = (r, u') ->
+                                      outcome (Ist x) (fun _ _ => True) r u').
+      { intros u i r u' HIu Hi Ha. unfold outcome. destruct r as [a|[]|s]; auto. eapply Ist_step; eauto. }
+      exact (L Hacc rate cap u1 start offset len _ _ HI Hz Hs).
+    Qed.
+
+    Lemma full_search_complete cap u1 start u2 :
+      (0 < cap)%nat -> Ist x u1 -> start + 2 * ntrees (us x) < W64 ->
+      search_best g acc rate cap u1 start 0 (ntrees u1) = (Err EMemory, u2) ->
+      forall t, t < ntrees (us x) -> ~ Good x t.
+    Proof.
+      intros Hcap HI Hb Hs.
+      eapply (search_best_complete g acc rate (ntrees (us x)) (Ist x) (Good x)); eauto.
+      - apply Ist_ntrees.
+      - intros u i u' HIu Hi Ha. eapply Ist_step; eauto.
+      - intros u i t HIu Ht Hr Hrt. destruct (Ist_tree _ _ _ _ HIu Ht) as (t0 & Ht0 & E1 & E2).
+        exists t0. splits; auto; [congruence|]. rewrite E2. apply R in Hrt. exact Hrt.
+      - intros u i t HIu (t0 & Ht0 & Hr0 & Hf0) Ht. destruct (Ist_tree _ _ _ _ HIu Ht) as (t0' & Ht0' & E1 & E2).
+        rewrite Ht0 in Ht0'. inv Ht0'. split; [congruence|]. apply R. lia.
+      - intros u i u' HIu (t0 & Ht0 & Hr0 & Hf0) Ha.
+        destruct (Ist_tree' _ _ _ _ HIu Ht0) as (t1 & Ht1 & E1 & E2).
+        destruct (A3 u i t1 (Err EMemory) u' HIu Ht1) as (f & c & Hx); [congruence|lia|exact Ha|]. discriminate.
+    Qed.
+  End OneSearch.
+
+  (* ----- the two instances ----- *)
+  Lemma rate_req_R class c f : rate_req policy class (pow2 0) c f <> PInvalid <-> 1 <= f.
+  Proof.
+    unfold rate_req. change (pow2 0) with 1. destruct (N.ltb_spec f 1).
+    - split; [congruence|lia].
+    - split; [auto|]. intros _ E. pose proof (PN class c f) as Hp. rewrite E in Hp. discriminate.
+  Qed.
+
+  Lemma rate2_R class c f :
+    match rate_req policy class (pow2 0) c f with
+    | PMatch _ => PMatch 255
+    | PDemote => if f =? TF then PMatch 255 else PDemote
+    | p => p
+    end <> PInvalid <-> 1 <= f.
+  Proof.
+    rewrite <- (rate_req_R class c f).
+    destruct (rate_req policy class (pow2 0) c f); try destruct (f =? TF); split; congruence.
+  Qed.
+
+  Lemma Ist_inv x u1 : Ist x u1 -> Inv (mk x u1) /\ low u1 = low (us x) /\ frame_rel (us x) u1.
+  Proof. intros (H & _). apply (GP_err_inv g policy _ _ _ _ H). Qed.
+
+  Lemma no_slots_unreserved x i t :
+    Inv x -> present_slots (us x) = [] -> tree_at (us x) i = Some t -> t_res t = false.
+  Proof.
+    intros HI Hp Ht. apply Inv_UIC in HI.
+    pose proof (UIC_tree g policy WF LF _ _ _ _ _ HI Ht) as Hok.
+    apply (tree_okC_nn g policy WF LF) in Hok. destruct Hok as (A & _).
+    unfold slots_of in A. rewrite Hp in A. cbn in A. destruct (t_res t); [discriminate|reflexivity].
+  Qed.
+
+  Lemma get_local_no_slot x k class local frame fuel :
+    Inv x -> idx_ok (us x) class local -> present_slots (us x) = [] ->
+    get_local g policy (S fuel) (us x) k class local frame true = (GErr EMemory None, us x).
+  Proof.
+    intros HI Hidx Hp. cbn [get_local].
+    destruct (locals_get g (us x) class local (option_map (fun f => f / TF) frame) (pow2 k)) as [lr u1] eqn:El.
+    pose proof HI as HC. apply Inv_UIC in HC.
+    pose proof (locals_get_C g policy WF LF _ _ _ _ _ _ _ _ _ HC Hidx El) as Hl.
+    pose proof (UIC_len8 g policy WF LF _ _ _ HC) as L8.
+    destruct lr as [row|rv| |s].
+    - exfalso. destruct Hl as (s & Hat & Hps & _).
+      pose proof (slot_at_present _ _ _ _ L8 Hat Hps) as Hin. rewrite Hp in Hin. destruct Hin.
+    - exfalso. destruct Hl as (_ & s & Hat & Hps & _).
+      pose proof (slot_at_present _ _ _ _ L8 Hat Hps) as Hin. rewrite Hp in Hin. destruct Hin.
+    - destruct Hl as (-> & _). reflexivity.
+    - destruct Hl.
+  Qed.
+
+  Lemma req_ok_class u rq fr : req_ok g u rq fr -> class_slots u (r_class rq) <> None.
+  Proof. intros (A & _). exact A. Qed.
+
+  Section Instances.
+    Variable x : ustate.
+    Variable class : N.
+    Variable local : option N.
+    Let rq := {| r_order := 0; r_class := class; r_local := local |}.
+    Hypothesis HI : Inv x.
+    Hypothesis Hok : req_ok g (us x) rq None.
+
+    Lemma sg_A1 u1 i r u2 : GP g policy x 0 None (Err EMemory) u1 -> i < ntrees (us x) ->
+      steal_global g policy u1 i class 0 None = (r, u2) -> GP g policy (mk x u1) 0 None r u2.
+    Proof. intros H1 Hi Ha. exact (steal_global_GP g policy WF LF x rq u1 i r u2 Hok H1 Hi Ha). Qed.
+
+    Lemma sg_A3 u1 i t r u2 : Ist x u1 -> tree_at u1 i = Some t -> t_res t = false -> 1 <= t_free t ->
+      steal_global g policy u1 i class 0 None = (r, u2) -> exists f c, r = Ok (f, c).
+    Proof.
+      intros HIu Ht Hr Hf Ha. destruct (Ist_inv _ _ HIu) as (A & B & C).
+      eapply (steal_global_succeeds (mk x u1)); cbn [us mk]; eauto.
+      apply (frame_class_slots (us x) u1 class C). exact (req_ok_class _ _ _ Hok).
+    Qed.
+
+    Lemma steal_search_complete u1 start u2 :
+      Ist x u1 -> start + 2 * ntrees (us x) < W64 ->
+      search_best g (fun u i => steal_global g policy u i class 0 None) (rate_req policy class (pow2 0)) 8
+                  u1 start 0 (ntrees u1) = (Err EMemory, u2) ->
+      forall t, t < ntrees (us x) -> ~ Good x t.
+    Proof.
+      apply (full_search_complete x (fun u i => steal_global g policy u i class 0 None)); try lia.
+      - exact sg_A1.
+      - intros u i e u' Ha. eapply steal_global_err_stable; eauto.
+      - exact sg_A3.
+      - apply rate_req_R.
+    Qed.
+
+    Variable lc len : N.
+    Hypothesis Hcl : class_locals (us x) class = Some len.
+    Hypothesis Hlen : 0 < len.
+
+    Lemma rs_A1 u1 i r u2 : GP g policy x 0 None (Err EMemory) u1 -> i < ntrees (us x) ->
+      reserve_or_steal g policy u1 i 0 class lc = (r, u2) -> GP g policy (mk x u1) 0 None r u2.
+    Proof. intros H1 Hi Ha. exact (reserve_or_steal_GP g policy WF LF PR x rq lc len u1 i r u2 Hok Hcl Hlen H1 Hi Ha). Qed.
+
+    Lemma rs_A3 u1 i t r u2 : Ist x u1 -> tree_at u1 i = Some t -> t_res t = false -> 1 <= t_free t ->
+      reserve_or_steal g policy u1 i 0 class lc = (r, u2) -> exists f c, r = Ok (f, c).
+    Proof.
+      intros HIu Ht Hr Hf Ha. destruct (Ist_inv _ _ HIu) as (A & B & C).
+      eapply (reserve_or_steal_succeeds (mk x u1)); cbn [us mk]; eauto.
+      rewrite (frame_class_locals _ _ _ C). exact Hcl.
+    Qed.
+
+    Lemma reserve_search_complete start u2 :
+      ntrees (us x) <> 0 -> start + 2 * ntrees (us x) < W64 ->
+      search_and_reserve g policy (us x) 0 class lc start = (Err EMemory, u2) ->
+      forall t, t < ntrees (us x) -> ~ Good x t.
+    Proof.
+      intros Hn Hb. unfold search_and_reserve.
+      set (acc := fun u i => reserve_or_steal g policy u i 0 class lc).
+      set (st := align_down start (next_pow2 (2 * N.max (ntrees (us x) / 16) 4))).
+      assert (Hst : st <= start).
+      { subst st. unfold align_down. rewrite N.mul_comm. apply N.mul_div_le. unfold next_pow2.
+        destruct (_ <=? 1); [discriminate|]. apply N.pow_nonzero. discriminate. }
+      match goal with |- match ?first with _ => _ end = _ -> _ => destruct first as [r1 u1] eqn:E1 end.
+      assert (H1 : r1 = Err EMemory -> Ist x u1).
+      { intros ->. destruct (Nat.ltb 0 (hord g)).
+        - eapply (search_Ist x acc); [exact rs_A1| |apply Ist_refl; exact HI| |exact E1].
+          + intros u i e u' Ha. eapply reserve_or_steal_err_stable; eauto.
+          + intros; contradiction.
+        - inv E1. apply Ist_refl. exact HI. }
+      destruct r1 as [a|e|s]; try discriminate. destruct e; try discriminate.
+      specialize (H1 eq_refl). intros H2.
+      eapply (full_search_complete x acc); [exact rs_A1| |exact rs_A3| | |exact H1| |exact H2].
+      - intros u i e u' Ha. eapply reserve_or_steal_err_stable; eauto.
+      - intros c f. apply rate2_R.
+      - lia.
+      - lia.
+    Qed.
+  End Instances.
+
+  (* ----- C10 (a): a base-order get right after a drain fails only if every tree counter is zero ----- *)
+  Ltac err_inv H E :=
+    match type of H with
+    | (let (_, _) := ?s in _) = _ => destruct s as [[?|[]|?] ?u1] eqn:E; try discriminate
+    end.
+
+  Theorem get_base_complete x rq x' :
+    Inv x -> valid_local (us x) rq -> present_slots (us x) = [] -> r_order rq = 0%nat ->
+    3 * ntrees (us x) < W64 ->
+    ghost_lift (fun u => llfree_get g policy u None rq) x = (Err EMemory, x') ->
+    forall i t, tree_at (us x) i = Some t -> t_free t = 0.
+  Proof.
+    intros HI Hv Hp Hord Hsz Hg i t Ht.
+    destruct rq as [k class local]. cbn [r_order] in Hord. subst k.
+    set (rq := {| r_order := 0; r_class := class; r_local := local |}) in *.
+    destruct (N.eq_dec (t_free t) 0) as [|Hne]; [assumption|exfalso].
+    assert (HG : Good x i).
+    { exists t. splits; auto; [eapply no_slots_unreserved; eauto|lia]. }
+    pose proof (tree_at_lt _ _ _ Ht) as Hi.
+    destruct (ghost_lift_get g policy _ _ _ _ _ Hg) as (u' & Hget & _). clear Hg.
+    unfold llfree_get in Hget.
+    destruct (check_cases g (us x) 0 rq) as [Ec|Ec]; rewrite Ec in Hget; [|discriminate].
+    destruct (check_ok g _ _ _ Ec) as (Hk & Hfr & Hal & Hcls).
+    assert (Hok : req_ok g (us x) rq None).
+    { unfold req_ok. splits; auto. intros f1 Hf1. discriminate. }
+    cbv zeta in Hget. cbn [r_class r_order r_local rq] in Hget.
+    set (len := match class_locals (us x) class with Some n => n | None => 0 end) in *.
+    set (start0 := (if len =? 0 then 0 else ntrees (us x) / len) * match local with Some i => i | None => 0 end) in *.
+    assert (Hstart : start0 <= ntrees (us x)).
+    { subst start0. destruct local as [lc|]; [|lia].
+      assert (Hlc : lc < len).
+      { specialize (Hv lc eq_refl). unfold idx_ok in Hv. cbn [r_class] in Hv. subst len. unfold class_locals.
+        destruct (class_slots (us x) class) as [l|] eqn:El; [|exfalso; apply Hcls; exact El]. cbn. apply Hv. exact El. }
+      destruct (N.eqb_spec len 0); [lia|].
+      pose proof (N.mul_div_le (ntrees (us x)) len). nia. }
+    assert (Hsb : forall oom,
+      match search_best g (fun u i => steal_global g policy u i class 0 None)
+              (rate_req policy class (pow2 0)) 8 (us x) start0 0 (ntrees (us x)) with
+      | (Err EMemory, u1) => oom u1
+      | other => other
+      end = (Err EMemory, u') -> False).
+    { intros oom H. err_inv H Es.
+      eapply (steal_search_complete x class local Hok (us x) start0 u1); eauto.
+      - apply Ist_refl; exact HI.
+      - lia. }
+    destruct local as [lc|]; [|eapply Hsb; exact Hget].
+    destruct ((0 <? len) && (len <? ntrees (us x))) eqn:Econd; [|eapply Hsb; exact Hget].
+    apply andb_true_iff in Econd. destruct Econd as (Hl0 & Hln). apply N.ltb_lt in Hl0, Hln.
+    assert (Hcl : class_locals (us x) class = Some len).
+    { subst len. destruct (class_locals (us x) class); [reflexivity|lia]. }
+    rewrite (get_local_no_slot x 0 class lc None 1 HI (Hv lc eq_refl) Hp) in Hget.
+    err_inv Hget Hsr. rename u1 into u2.
+    assert (Hn0 : ntrees (us x) <> 0) by lia.
+    assert (Hb0 : start0 + 2 * ntrees (us x) < W64) by lia.
+    exact (reserve_search_complete x class (Some lc) HI Hok lc len Hcl Hl0 start0 u2 Hn0 Hb0 Hsr i Hi HG).
+  Qed.
+
+  (* ... hence, by U3, the lower allocator has no free frame outside what offline operations hide *)
+  Corollary get_base_complete_free x rq x' :
+    Inv x -> valid_local (us x) rq -> present_slots (us x) = [] -> r_order rq = 0%nat ->
+    3 * ntrees (us x) < W64 ->
+    ghost_lift (fun u => llfree_get g policy u None rq) x = (Err EMemory, x') ->
+    forall i, i < ntrees (us x) -> tree_free g (low (us x)) i = nth (nn i) (off x) 0.
+  Proof.
+    intros HI Hv Hp Hord Hsz Hg i Hi.
+    destruct (tree_at_some _ _ Hi) as (t & Ht).
+    pose proof (get_base_complete x rq x' HI Hv Hp Hord Hsz Hg i t Ht) as H0.
+    apply Inv_UIC in HI.
+    pose proof (UIC_tree g policy WF LF _ _ _ _ _ HI Ht) as Hok.
+    apply (tree_okC_nn g policy WF LF) in Hok. destruct Hok as (_ & B & _).
+    unfold slots_of in B. rewrite Hp in B. cbn in B. unfold cr0 in B. lia.
+  Qed.
+
+  (* ----- C10 (b): a targeted get right after a drain succeeds exactly when the block is free and the
+     counter of its tree covers it ----- *)
+  Lemma steal_global_at_succeeds x f class k t r u' :
+    Inv x -> class_slots (us x) class <> None -> (k <= tord g)%nat ->
+    aligned f k = true -> f + pow2 k <= frames (low (us x)) ->
+    tree_at (us x) (f / TF) = Some t -> t_res t = false -> pow2 k <= t_free t ->
+    spec_get_enabled (abs g (low (us x))) f k = true ->
+    steal_global g policy (us x) (f / TF) class k (Some f) = (r, u') -> exists c, r = Ok (f, c).
+  Proof.
+    intros HI Hc Hk Hal Hfr Ht Hr Hf Hen. pose proof (tree_at_lt _ _ _ Ht) as Hi.
+    unfold steal_global. unfold lift at 1.
+    destruct (trees_steal policy (us x) (f / TF) class (pow2 k)) as [ro u1] eqn:Es.
+    pose proof HI as HC. apply Inv_UIC in HC.
+    destruct (trees_steal_C g policy WF LF _ _ _ _ _ _ _ _ HC Hi Hc Es) as [(-> & ->)|Hs].
+    { exfalso. unfold trees_steal in Es. rewrite Ht in Es.
+      destruct (tree_steal_some t class (pow2 k)) as (t' & Et'); auto. rewrite Et' in Es. discriminate. }
+    destruct Hs as (t0 & t' & _ & _ & _ & _ & _ & _ & _ & -> & Hu1 & Hcr).
+    specialize (Hcr (crd (f / TF) (pow2 k)) (fun j => eq_refl)).
+    assert (Hl1 : low u1 = low (us x)) by (subst u1; reflexivity).
+    destruct (lget_low g u1 (tree_row g (f / TF)) k (Some f)) as [r2 u2] eqn:Eg.
+    pose proof (UIC_lower g policy WF LF _ _ _ Hcr) as HL. cbn [us mk] in HL.
+    assert (Hpre : aligned f k = true /\ f + pow2 k <= frames (low u1)) by (rewrite Hl1; auto).
+    pose proof (lget_low_spec g LF _ _ _ (Some f) _ _ HL Hk Hpre Eg) as (_ & Hsp).
+    destruct r2 as [f1|e|s]; [| |destruct Hsp].
+    - destruct Hsp as (-> & _). intros H; inv H. eauto.
+    - exfalso. destruct Hsp as (_ & _ & Hno). rewrite Hl1, Hen in Hno. discriminate.
+  Qed.
+
+  Theorem get_at_complete x f rq t :
+    Inv x -> valid_local (us x) rq -> present_slots (us x) = [] ->
+    check g (us x) f rq = Ok tt -> tree_at (us x) (f / TF) = Some t ->
+    ((exists c x', ghost_lift (fun u => llfree_get g policy u (Some f) rq) x = (Ok (f, c), x')) <->
+     (pow2 (r_order rq) <= t_free t /\ spec_get_enabled (abs g (low (us x))) f (r_order rq) = true)).
+  Proof.
+    intros HI Hv Hp Ec Ht. split.
+    - intros (c & x' & Hg).
+      pose proof (llfree_get_spec g policy WF LF PR PT _ _ _ _ _ HI Hv Hg) as (He & _).
+      pose proof (llfree_get_visible g policy WF LF PR PT _ _ _ _ _ _ HI Hv Hg) as Hvis.
+      split; [|exact He].
+      pose proof HI as HC. apply Inv_UIC in HC.
+      pose proof (UIC_tree g policy WF LF _ _ _ _ _ HC Ht) as Hok.
+      apply (tree_okC_nn g policy WF LF) in Hok. destruct Hok as (_ & B & _).
+      unfold slots_of in B. rewrite Hp in B. cbn in B. unfold cr0 in B. lia.
+    - intros (Hf & Hen).
+      destruct (check_ok g _ _ _ Ec) as (Hk & Hfr & Hal & Hcls).
+      pose proof (no_slots_unreserved _ _ _ HI Hp Ht) as Hr.
+      unfold ghost_lift.
+      destruct (llfree_get g policy (us x) (Some f) rq) as [r u'] eqn:Hget.
+      unfold llfree_get in Hget. rewrite Ec in Hget. unfold get_at in Hget.
+      assert (Hafter : forall r u',
+        match steal_global g policy (us x) (f / TF) (r_class rq) (r_order rq) (Some f) with
+        | (Err EMemory, u2) =>
+            match steal_local g policy u2 rq (Some f) with
+            | (Err EMemory, u3) => demote_local g policy u3 rq (Some f)
+            | other => other
+            end
+        | other => other
+        end = (r, u') -> exists c, r = Ok (f, c)).
+      { intros r1 u1 H.
+        destruct (steal_global g policy (us x) (f / TF) (r_class rq) (r_order rq) (Some f)) as [r2 u2] eqn:E2.
+        destruct (steal_global_at_succeeds x f _ _ t r2 u2 HI Hcls Hk Hal Hfr Ht Hr Hf Hen E2) as (c & ->).
+        inv H. eauto. }
+      destruct (r_local rq) as [local|] eqn:Eloc.
+      + rewrite (get_local_no_slot x (r_order rq) (r_class rq) local (Some f) 1 HI (Hv local Eloc) Hp) in Hget.
+        destruct (Hafter _ _ Hget) as (c & ->). eauto.
+      + destruct (Hafter _ _ Hget) as (c & ->). eauto.
+  Qed.
+
+  (* the size hypothesis of `get_base_complete` holds on every 64-bit machine *)
+  Lemma ntrees_small x : Inv x -> frames (low (us x)) < W64 -> 3 * ntrees (us x) < W64.
+  Proof.
+    intros HI Hfr. apply Inv_UIC in HI. rewrite (UIC_ntrees g policy WF LF _ _ _ HI).
+    set (n := ntab g (frames (low (us x)))).
+    destruct (N.eq_dec n 0) as [->|Hn]; [reflexivity|].
+    assert (Hlt : n - 1 < n) by lia.
+    apply (ntab_lt g) in Hlt. destruct (TF_64 g WF) as (q & Eq & Hq).
+    change W64 with 18446744073709551616 in *. nia.
+  Qed.
+End Complete10.
+
+(* ============================================================================================== *)
+Module CompleteExamples.
+  Import GetExamples.
+  (* both whole trees allocated, the partial third tree taken offline: no slot present, every counter
+     zero, a base-order get fails with Err EMemory although the lower allocator still has 904 free
+     frames (all hidden by the offline operation) *)
+  Definition x2off := snd (ghost_change g x2 {| m_id := Some 2; m_class := None; m_free := 0 |}
+                                         {| c_class := None; c_op := Some OpOffline |}).
+  Example ex_base_complete :
+    upper_invb g pol x2off = true /\ present_slots (us x2off) = [] /\
+    (exists x3, get x2off None (rq 0 1 None) = (Err EMemory, x3)) /\
+    (exists x3, get x2off None (rq 0 0 (Some 1)) = (Err EMemory, x3)) /\
+    map t_free (trees (us x2off)) = [0; 0; 0] /\
+    map (fun i => tree_free g (low (us x2off)) i) [0; 1; 2] = off x2off /\ off x2off = [0; 0; 904] /\
+    (3 * ntrees (us x2off) <? W64) = true.
+  Proof.
+    split; [vm_compute; reflexivity|]. split; [vm_compute; reflexivity|].
+    split; [eexists; vm_compute; reflexivity|]. split; [eexists; vm_compute; reflexivity|].
+    repeat split; vm_compute; reflexivity.
+  Qed.
+  (* the same state before the offline operation: the counter of tree 2 is not zero and the get succeeds *)
+  Example ex_base_ok :
+    present_slots (us x2) = [] /\ map t_free (trees (us x2)) = [0; 0; 904] /\
+    exists f c x3, get x2 None (rq 0 1 None) = (Ok (f, c), x3) /\ f / TF g = 2.
+  Proof.
+    split; [vm_compute; reflexivity|]. split; [vm_compute; reflexivity|].
+    eexists _, _, _. split; vm_compute; reflexivity.
+  Qed.
+  (* targeted: free block and sufficient counter: Ok; free block but hidden counter: Err EMemory *)
+  Example ex_at_complete :
+    present_slots (us x0) = [] /\ check g (us x0) 100 (rq 2 1 None) = Ok tt /\
+    option_map t_free (tree_at (us x0) (100 / TF g)) = Some 2048 /\
+    spec_get_enabled (abs g (low (us x0))) 100 2 = true /\
+    (exists c x1, get x0 (Some 100) (rq 2 1 None) = (Ok (100, c), x1)) /\
+    present_slots (us xoff) = [] /\ check g (us xoff) 2048 (rq 0 1 None) = Ok tt /\
+    option_map t_free (tree_at (us xoff) (2048 / TF g)) = Some 0 /\
+    spec_get_enabled (abs g (low (us xoff))) 2048 0 = true /\
+    (exists x1, get xoff (Some 2048) (rq 0 1 None) = (Err EMemory, x1)).
+  Proof.
+    repeat match goal with |- _ /\ _ => split end;
+      try (vm_compute; reflexivity); try (eexists _, _; vm_compute; reflexivity);
+      try (eexists; vm_compute; reflexivity).
+  Qed.
+End CompleteExamples.
